@@ -545,3 +545,41 @@ def check_init_flag(ctx, fb, prog, flag, where, rule="R02.2"):
     ctx.inst(not bad, rule, "init=" + flag, cf.loc(),
              "%s (asserted at %s) is set, with its value, on all %d accepting paths that select the taproot/tapscript version" % (flag, where, len(tgt)),
              "%s is asserted at %s but configure_tx_txin can select TAPROOT/TAPSCRIPT without setting it: the first signature check aborts on the assertion" % (flag, where))
+
+
+def check_commitment_not_skipped(ctx, fb, prog, rule="R03.3"):
+    """A session that was handed a commitment environment is not `done` before its first step, whatever the script (an empty
+    tapscript has pc == pend from the start): decided on the paths of Instance::setup_environment with the commitment taken as
+    present."""
+    se = fb.fn("Instance::setup_environment")
+
+    def assume(term, conds):
+        def is_tce(x):
+            return isinstance(x, tuple) and x[0] == "f" and x[2] == "tce" and x[1] == THIS
+        if is_tce(term):
+            return True
+        if isinstance(term, tuple) and term[0] == "eq" and any(is_tce(x) for x in term[1:]) and (symx.NULL in term[1:] or C(0) in term[1:]):
+            return False
+        return None
+    X = symx.Explorer(prog, assume=assume, inline=lambda fn, n: False, transparent=lambda n: True)
+    try:
+        outs = X.explore(se, this=THIS, limit=20000)
+    except symx.Unsupported as e:
+        raise AnalysisBroken("set-up rules: setup_environment: %s" % e)
+    ctx.site(len(outs))
+    handed = bad = 0
+    for o in outs:
+        if o.status != "ret":
+            continue
+        envs = {k[0] for (k, v) in o.heap.items() if k[1] == "tce" and k[0] != THIS and v == ("f", THIS, "tce")}
+        for e_ in envs:
+            handed += 1
+            d = o.heap.get((e_, "done"))
+            if d != C(0):
+                bad += 1
+    if not handed:
+        raise AnalysisBroken("set-up rules: setup_environment does not hand Instance::tce to the session")
+    ctx.inst(not bad, rule, "pending-commitment-not-done", se.loc(),
+             "on all %d paths that hand a commitment environment to the session, the session's done flag is cleared" % handed,
+             "setup_environment hands the commitment check to a session that may already be `done` (an empty tapscript has pc == pend at construction): "
+             "the non-interactive run and `step` then never perform the commitment check - a script that does not match the program is executed as if it did")
